@@ -31,6 +31,7 @@ type patCtx struct {
 	refs   []string // regdefs that may be referenced
 	leaves *int     // remaining leaf budget
 	dotOK  bool
+	wideOK bool
 }
 
 func genLeaf(t *rapid.T, c *patCtx) *gr.Pat {
@@ -88,9 +89,33 @@ func fixScalar(r rune) rune {
 	return r
 }
 
+// genWideAlt: an alternation with ten or more alternatives at one level
+// ('0' | '1' | … | '9', keyword lists): item positions need two digits.
+func genWideAlt(t *rapid.T, c *patCtx) *gr.Pat {
+	n := rapid.IntRange(10, 13).Draw(t, "wideN")
+	*c.leaves -= 2
+	var ps []*gr.Pat
+	base := rapid.SampledFrom([]rune{'a', '0', 'a', 0x3b1}).Draw(t, "wideBase")
+	for i := 0; i < n; i++ {
+		r := base + rune(i%5)
+		switch rapid.IntRange(0, 3).Draw(t, "wideAltKind") {
+		case 0:
+			ps = append(ps, gr.Seq(gr.Lit(r), gr.Lit(base+rune((i+1)%3))))
+		case 1:
+			ps = append(ps, gr.Seq(gr.Lit(r), gr.Lit(base+rune((i+1)%3)), gr.Lit(base+rune(i%2))))
+		default:
+			ps = append(ps, gr.Lit(base+rune(i)))
+		}
+	}
+	return gr.Grp(gr.Alt(ps...))
+}
+
 func genPat(t *rapid.T, c *patCtx, depth int) *gr.Pat {
 	if depth <= 0 || *c.leaves <= 1 {
 		return genLeaf(t, c)
+	}
+	if c.wideOK && rapid.IntRange(0, 24).Draw(t, "wide") == 0 {
+		return genWideAlt(t, c)
 	}
 	switch rapid.IntRange(0, 9).Draw(t, "node") {
 	case 0, 1, 2:
@@ -167,7 +192,7 @@ func LexGrammar(o LexOpts) *rapid.Generator[*gr.Grammar] {
 		for i := 0; i < nReg; i++ {
 			name := fmt.Sprintf("_r%d", i)
 			l := o.MaxLeaves
-			c := &patCtx{edge: edge, refs: append([]string{}, regNames...), leaves: &l, dotOK: !o.NoDot}
+			c := &patCtx{edge: edge, refs: append([]string{}, regNames...), leaves: &l, dotOK: !o.NoDot, wideOK: true}
 			var p *gr.Pat
 			if o.OnlyCharClassRegs || rapid.IntRange(0, 9).Draw(t, "regKind") < 6 {
 				c.refs = append([]string{}, charClassRegs...)
@@ -183,7 +208,7 @@ func LexGrammar(o LexOpts) *rapid.Generator[*gr.Grammar] {
 		nIgn := rapid.IntRange(0, o.MaxIgnored).Draw(t, "nIgn")
 		mk := func(name string, kind gr.DefKind) {
 			l := rapid.IntRange(1, o.MaxLeaves).Draw(t, "leafBudget")
-			c := &patCtx{edge: edge, refs: regNames, leaves: &l, dotOK: !o.NoDot}
+			c := &patCtx{edge: edge, refs: regNames, leaves: &l, dotOK: !o.NoDot, wideOK: true}
 			p := genPat(t, c, o.Depth)
 			defs = append(defs, gr.LexDef{Name: name, Kind: kind, Pat: p})
 		}
